@@ -433,6 +433,10 @@ def rules(ctx):
     # something less than the edges) may be served to another one (same rule as C13.R5, restricted to the variables package)
     from .c13 import r5_shared_defaults
     r5_shared_defaults(ctx, rid="C01.R9", scope="leaspy.variables", title="the dependency closures a State invalidates with are computed from its own graph (no process-wide memo in leaspy.variables)")
+    # a block run with snapshotting switched off must switch it back on however it is left: otherwise later assignments take no snapshot and
+    # a revert restores an older one - derived values of the rejected assignment are then served (same rule as C02.R7)
+    from .c02 import r7_auto_fork_scoped
+    r7_auto_fork_scoped(ctx, rid="C01.R10", title="State.auto_fork sets the requested mode for the block and restores the previous one in a `finally`")
     ctx.trust("CPython ast; Python dict semantics; torch out-of-place semantics of methods whose name does not end in '_'")
     ctx.assume("sorted_children / sorted_ancestors of VariablesDAG are the exact transitive closures in topological order (C15)")
 
